@@ -1,0 +1,37 @@
+package plenccodec
+
+import (
+	"fmt"
+	"strings"
+)
+
+// wrappedError says where in a nested value decoding failed. The text of the
+// error it wraps is added only when the message is asked for: formatting the
+// whole message again at every level of a deeply nested value takes time and
+// memory quadratic in the depth, which data from an untrusted source can
+// make large.
+type wrappedError struct {
+	prefix string
+	err    error
+}
+
+// wrapf is fmt.Errorf(format+"%w", a..., err) with the text of err left out
+// until Error is called
+func wrapf(err error, format string, a ...interface{}) error {
+	return &wrappedError{prefix: fmt.Sprintf(format, a...), err: err}
+}
+
+func (e *wrappedError) Error() string {
+	var b strings.Builder
+	for {
+		b.WriteString(e.prefix)
+		next, ok := e.err.(*wrappedError)
+		if !ok {
+			b.WriteString(e.err.Error())
+			return b.String()
+		}
+		e = next
+	}
+}
+
+func (e *wrappedError) Unwrap() error { return e.err }
